@@ -762,6 +762,31 @@ func bvBin(op string, a, b *Term) *Term {
 			return r
 		}
 	}
+	switch op {
+	case "bvadd":
+		if a.IsNum() {
+			a, b = b, a
+		}
+		if b.IsNum() {
+			if b.Val.Sign() == 0 {
+				return a
+			}
+			if a.Op == "bvadd" && a.Args[1].IsNum() {
+				return bvBin("bvadd", a.Args[0], bvFold("bvadd", a.Args[1], b))
+			}
+		}
+	case "bvsub":
+		if b.IsNum() {
+			return bvBin("bvadd", a, BVNeg(b))
+		}
+		if a == b {
+			return BVNum(0, a.Sort.Width)
+		}
+	case "bvor", "bvxor", "bvshl", "bvlshr":
+		if b.IsNum() && b.Val.Sign() == 0 {
+			return a
+		}
+	}
 	return mk(op, a.Sort, a, b)
 }
 
